@@ -293,3 +293,12 @@ Check (C20_node_blocks_certified :
 Check (C20_node_written_within_limit :
   forall (D : Type) (digest : N -> D -> option (list N)) mb mm ops st,
     Forall (fun pm => omsg_len (snd pm) <= mm) (snd (run_node_ops D digest mb mm st ops))).
+Check (C20_written_only_commanded :
+  forall (D : Type) (digest : N -> D -> option (list N)) mb mm es m,
+    In m (snd (run_peer D digest mb mm ps_init es)) ->
+    exists a, In (PSend a) es /\ In m (action_msgs mb mm a)).
+Check (C20_node_written_only_commanded :
+  forall (D : Type) (digest : N -> D -> option (list N)) mb mm ops st,
+    (forall q, ps_pend (get_ps st q) = []) ->
+    forall p m, In (p, m) (snd (run_node_ops D digest mb mm st ops)) ->
+      exists a, In (p, PSend a) ops /\ In m (action_msgs mb mm a)).
